@@ -139,6 +139,7 @@ def queries(tier):
                                                'COPY_CTOR', 'MOVE_CTOR'))
         qs += op_queries('GGG', 4, 'GR', 2, (2,), ('NONE', 'INSERT', 'REMOVE', 'RENAME', 'MERGE_COPY', 'RESIZE', 'COMPRESS'))
         for op, a in POST_OPS: qs.append(tq(op, 'GG' if op in ('SORT_ASC', 'COMPRESS') else 'GGR', 2, 'G', 2, ARG=a, POST=1))
+        qs.append(tq('CLEAR', 'GGG', 2, 'GG', 2, ARG=0, POST=1))     # Clear on a table that has grown (3 of 4 slots in use), then an insert: no bucket head may survive the clear
         # default-constructed tables (capacity 0 -> 2 -> 4)
         qs += op_queries('', 0, '', 0, (0, 2), ('NONE', 'INSERT', 'GET', 'REMOVE', 'REMOVE_INDEX', 'RENAME', 'MERGE_COPY', 'MERGE_MOVE', 'RESERVE', 'EXPECT',
                                                 'COMPRESS', 'CLEAR', 'SORT_ASC', 'COPY_CTOR', 'MOVE_ASSIGN'))
